@@ -35,7 +35,7 @@ sys.path.insert(0, os.path.join(ROOT, "checker"))
 #   post:   optional offline checker: module name in /verif/checker with run(shard_outputs, ctx)
 # ---------------------------------------------------------------------------------------------
 SPECS = {
-    "C01": dict(shards=(8, 64), level="exploration",
+    "C01": dict(shards=(16, 64), level="exploration",
                 floors={"quick": {"commit_accepted": 100, "agree_checked:receiver": 150,
                                   "agree_checked:joiner": 20, "app_delivered": 100},
                         "thorough": {"commit_accepted": 5000}},
@@ -43,7 +43,7 @@ SPECS = {
                      "external commits, identity changes, reloads) over drawn configurations; one evaluation = one member's "
                      "state compared with the reference member after an accepted commit; distinct = distinct "
                      "(encoded GroupContext, role) pairs judged; trivial = none (every evaluation follows an accepted commit)"),
-    "C03": dict(shards=(12, 48), level="exploration",
+    "C03": dict(shards=(16, 48), level="exploration",
                 floors={"quick": {"trial:commit:bitflip": 2000, "trial:application:bitflip": 1000,
                                   "trial:proposal:bitflip": 1000, "trial:welcome:bitflip": 500,
                                   "insider_built:path_too_short_consistent_hashes": 10,
@@ -57,7 +57,7 @@ SPECS = {
                      "delivered to a clone of each receiver; one evaluation = one delivery judged; distinct = distinct "
                      "(message kind, mutation class, outcome/error kind) cells; trivial deliveries (mutations that decode to the same "
                      "message) are skipped and not counted"),
-    "C04": dict(shards=(12, 48), level="exploration",
+    "C04": dict(shards=(16, 48), level="exploration",
                 floors={"quick": {"unchanged_checked": 3000, "follow_up_genuine_ok": 1500, "follow_up_peer_accepts": 800}},
                 show=("commit_accepted", "histories", "unchanged_checked", "follow_up", "honest_failure", "failed_build"),
                 rule="every rejection produced by the tamper engine's mutations plus honest-failure scripts (missing external PSK, trimmed "
@@ -66,7 +66,7 @@ SPECS = {
                      "rejected call followed by state comparison (PartialEq on every part of the member state; secret trees up to "
                      "observational equivalence of every (leaf, key type, generation<=6) key) and the follow-up oracle (genuine message "
                      "accepted, then the member sends and a peer accepts); distinct = distinct (kind, class, error kind) cells"),
-    "C05": dict(shards=(8, 32), level="exploration", post="c05_post",
+    "C05": dict(shards=(16, 32), level="exploration", post="c05_post",
                 floors={"quick": {"delivery:fresh": 1500, "delivery:replay_or_reused_generation": 300, "delivery:beyond_window": 2,
                                   "gap_stream_sent": 8, "receiver_reloaded_mid_stream": 50, "stale_sender_restored": 15,
                                   "offline_content_seals": 10000, "offline_handshake_keys": 20, "offline_application_keys": 5000,
@@ -78,7 +78,7 @@ SPECS = {
                      "model (accepted iff generation unused and <= next+1024); offline every recorded content aead_seal is checked for "
                      "(key, nonce) uniqueness and key-type separation; one evaluation = one delivery or one seal event; distinct = distinct "
                      "(context, key type, expectation, gap class) cells + (history, epoch, type, member) groups"),
-    "C06": dict(shards=(8, 32), level="exploration",
+    "C06": dict(shards=(16, 32), level="exploration",
                 floors={"quick": {"lockstep_steps": 1500, "crash_points": 100, "provider_equivalence_checked": 150,
                                   "reload_at:commit_created_pending": 25, "reload_at:received_commit": 80,
                                   "reload_at:received_proposal": 80, "reload_at:received_application_message": 60,
@@ -91,7 +91,7 @@ SPECS = {
                      "monitor compares a later fresh load with the state at the last write; the Tee backend compares the in-memory and SQLite "
                      "providers after every write; one evaluation = one reload / lockstep step / crash point / provider comparison; distinct "
                      "= distinct (kind, position, pending?, cached proposals, result) cells"),
-    "C02": dict(shards=(8, 32), level="exploration", post="c02_post",
+    "C02": dict(shards=(16, 32), level="exploration", post="c02_post",
                 floors={"quick": {"outsider_fed:commit": 1000, "outsider_fed:proposal": 1500, "outsider_fed:application": 1000,
                                   "offline_commits_checked": 300, "offline_path_seals_checked": 1000, "offline_welcome_seals_checked": 100,
                                   "offline_removed_members_checked": 40, "commit_external": 10}},
@@ -103,7 +103,7 @@ SPECS = {
                      "resolutions of the new tree minus newly added leaves as a multiset and per level, none is a key a removed member knew, "
                      "Welcome recipients equal the init keys of the added key packages; one evaluation = one outsider delivery or one commit "
                      "judged offline; distinct = distinct (message kind, epoch distance) cells + distinct commits"),
-    "C07": dict(shards=(8, 32), level="exploration",
+    "C07": dict(shards=(16, 32), level="exploration",
                 floors={"quick": {"joiner_ops_checked:welcome": 150, "joiner_ops_checked:external_commit": 10,
                                   "key_package_consumption_checked": 150, "negative:welcome_reused_after_write": 150,
                                   "negative:welcome_with_tree_of_other_epoch": 100, "negative:external_commit_from_stale_group_info": 100,
@@ -115,7 +115,7 @@ SPECS = {
                      "first commit accepted by everybody (on clones), key package gone after the first write, Welcome not reusable; negative "
                      "table: tree of another epoch, missing tree, external commit from a stale GroupInfo; distinct = distinct "
                      "(check, join kind, LCA level / epoch distance) cells"),
-    "C08": dict(shards=(8, 32), level="exploration", post="c08_post",
+    "C08": dict(shards=(16, 32), level="exploration", post="c08_post",
                 floors={"quick": {"validated:receiver": 2000, "validated:joiner": 300, "validated:committer": 500, "placement_checked": 300,
                                   "offline_tree_hashes_recomputed": 300, "shape:interior_blank_leaf": 50,
                                   "shape:unmerged_leaf_under_parent": 50, "shape:regrew_after_shrink": 20}},
@@ -124,7 +124,7 @@ SPECS = {
                      "fed to ExternalClient::observe_group (complete joiner validation) and distinct (tree, tree hash) pairs are recomputed "
                      "from scratch by treehash.py (tree hash, parent-hash chains, structure); leaf placement of every add is compared with "
                      "'leftmost blank after the removes'; distinct = distinct (exported tree, role) pairs"),
-    "C09": dict(shards=(8, 32), level="exploration",
+    "C09": dict(shards=(16, 32), level="exploration",
                 floors={"quick": {"private_key_checked": 8000, "freshness_checked": 1500, "leaf_rekey_checked": 500}},
                 show=("histories", "commit_accepted", "private_key", "freshness", "leaf_rekey", "entitled"),
                 rule="after every commit of seeded histories, for every member and every direct-path position: a stored private key must "
@@ -132,7 +132,7 @@ SPECS = {
                      "or beyond the path; after a path commit no committer path key may occur in the previous tree; a leaf private key "
                      "replaced by the member's own update/commit must not occur in its serialised state; distinct = distinct "
                      "(role, path position, key present, node present, LCA level) cells"),
-    "C10": dict(shards=(8, 32), level="exploration",
+    "C10": dict(shards=(16, 32), level="exploration",
                 floors={"quick": {"soups": 250, "commit_built": 200, "receiver_accepted": 700, "build_refused_as_expected": 80,
                                   "by_ref_offenders_dropped": 80, "insider_refused": 800, "unused_sets_compared": 600,
                                   "missing_proposal_refused:ProposalNotFound": 20, "commit_after_refused_build_ok": 60,
@@ -143,7 +143,7 @@ SPECS = {
                      "one receiver decision about its commit, or one receiver decision about an insider commit carrying an offender; distinct = "
                      "distinct (build class, number of by-reference offenders, cache size, by-value count, timed) / (receiver lacks a "
                      "referenced proposal, applied count, same cache) / (rule, honest content) classes"),
-    "C11": dict(shards=(8, 32), level="exploration",
+    "C11": dict(shards=(16, 32), level="exploration",
                 floors={"quick": {"winner_orders_resolved": 300, "stale_commit_refused": 2000, "stale_detached_refused": 150,
                                   "second_build_refused": 150, "read_with_pending_ok": 300, "agreement_checked": 1000,
                                   "built_pending_next_to_detached": 30}},
@@ -152,7 +152,7 @@ SPECS = {
                      "resolved on clones (winner applies directly, by echo or detached; losers clear or just receive; stale commits and stale "
                      "detached secrets are offered afterwards) and compared with a per-member reference model (pending none/some, epoch); one "
                      "evaluation = one model prediction compared; distinct = distinct (operation, role, pending/detached, mode, racers, group size, cached proposals, suite) cells"),
-    "C13": dict(shards=(8, 32), level="exploration", post="c13_post",
+    "C13": dict(shards=(16, 32), level="exploration", post="c13_post",
                 floors={"quick": {"offline_pure_values": 40000, "offline_insitu_epochs": 150, "offline_insitu_values": 3000,
                                   "offline_insitu_epochs_with_psk": 20, "offline_insitu_welcome_epochs": 20,
                                   "offline_insitu_sender_data_checked": 100, "pure:openssl:suite4": 50, "pure:awslc:suite7": 50,
@@ -164,7 +164,7 @@ SPECS = {
                      "histories the members' secrets, the commit bytes, applied PSKs, recorded HKDF-Extract calls and application AEAD keys "
                      "are replayed through the reference (transcript hashes, membership and confirmation tags, full schedule, exporter, "
                      "secret tree); one evaluation = one case or one epoch; distinct = distinct cases / epochs"),
-    "C14": dict(shards=(8, 32), level="exploration", valgrind=True,
+    "C14": dict(shards=(16, 32), level="exploration", valgrind=True,
                 floors={"quick": {"op:x509_validate_chain": 250, "op:hpke_open": 1200, "op:kdf_expand": 400, "op:verify": 300,
                                   "memcheck_clean_runs": 1}},
                 show=("op:", "skipped:", "memcheck"),
@@ -173,7 +173,7 @@ SPECS = {
                      "input classes, and X.509 chains minted with the openssl crate (21 variants x 6 times) judged against the verdict known "
                      "by construction; one evaluation = one pairwise comparison; distinct = distinct (operation, suite, pair, input class); "
                      "plus one valgrind memcheck run of a reduced OpenSSL + AWS-LC workload"),
-    "C12": dict(shards=(8, 32), level="exploration", post="c12_post",
+    "C12": dict(shards=(16, 32), level="exploration", post="c12_post",
                 floors={"quick": {"nontrivial": 100000, "targeted_nonminimal": 5000, "arbitrary_decodes": 20000}},
                 show=("histories", "nontrivial", "trivial", "targeted_", "arbitrary_"),
                 rule="harvested library-produced blobs of 30 kinds (value round trip, exact consumption, exact encoded_len), hostile byte strings "
@@ -181,7 +181,7 @@ SPECS = {
                      "codec_probe under catch_unwind, a counting global allocator and a wall-clock bound, and arbitrary-generated values "
                      "(encoded_len == bytes written; what decodes re-encodes to the consumed prefix); distinct = (kind, class, outcome) "
                      "cells; non-trivial = decode succeeded or the input was a mutated-valid / targeted one"),
-    "C15": dict(shards=(12, 48), level="fault_enumeration",
+    "C15": dict(shards=(16, 48), level="fault_enumeration",
                 floors={"quick": {"retry_ok": 3000, "op:process_commit": 300, "op:write_to_storage": 100,
                                   "op:apply_pending_commit": 50, "op:commit": 50, "op:join_group": 20,
                                   "op:load_group": 30, "fault_point:group.write": 100, "fault_point:kp.delete": 30,
@@ -193,7 +193,7 @@ SPECS = {
                      "one evaluation = one fault point (operation must Err, member and the three stores unchanged, retry Ok, final member and "
                      "stored history equal to the twin's); distinct = distinct (operation, storage call, position, second position, backend, retention); the "
                      "enumeration inside an operation is complete, histories are sampled"),
-    "C16": dict(shards=(8, 32), level="exploration",
+    "C16": dict(shards=(16, 32), level="exploration",
                 floors={"quick": {"observer_agreement_checked": 800, "window_checked": 6000, "observer_restored": 60,
                                   "external_proposal_accepted_by_member": 400, "observer_fed:commit": 500, "observer_fed:proposal": 800,
                                   "negative:commit_bad_signature": 300, "negative:insider_rule_remove_of_blank_leaf": 20,
@@ -204,7 +204,7 @@ SPECS = {
                      "serialized snapshots at random points, issue external-sender proposals of five kinds; one evaluation = one observer "
                      "comparison with the members after a commit, one ciphertext window decision, one refused invalid message or one "
                      "external proposal; distinct = distinct (check, jitter class, epoch distance / mutation class) cells"),
-    "C17": dict(shards=(8, 32), level="exploration",
+    "C17": dict(shards=(16, 32), level="exploration",
                 floors={"quick": {"reinit_variant:equal": 15, "reinit_variant:strict_subset": 5, "reinit_variant:superset": 5,
                                   "reinit_variant:replaced_identity": 5, "branch_variant:subset": 10, "branch_variant:with_stranger": 3,
                                   "successor_joined": 40, "branch_joined": 40, "old_group_refuses_to_commit": 200,
@@ -215,7 +215,7 @@ SPECS = {
                      "permuted order); the verdict is computed from the identity sets; old-group freeze checked on every member (own build and "
                      "a commit forged by an insider ignoring the freeze); mismatched joins (plain Client::join_group, Welcome of epoch 2, "
                      "resumption secret of another epoch); distinct = distinct (flow, variant, key change, successor size, suite) cells"),
-    "C18": dict(shards=(8, 32), level="exploration",
+    "C18": dict(shards=(16, 32), level="exploration",
                 floors={"quick": {"receiver_expected_to_accept": 1600, "receiver_expected_to_reject": 700, "holder_accepted_and_agrees": 1600,
                                   "rejector_follows_alternative_commit": 700, "joiner_expected_to_join": 30, "joiner_expected_to_fail": 100,
                                   "trial:External": 100, "trial:CommitterLacks": 100, "pure_secret_pairs_compared": 12000,
@@ -228,7 +228,7 @@ SPECS = {
                      "distinct (kind, expected verdict, reason, list length, number of PSKs not held) classes and (provider, suite, variant, "
                      "list length) classes; trials run on clones of every member at every epoch of histories in which members write, reload "
                      "and join at different epochs"),
-    "C19": dict(shards=(8, 32), level="exploration",
+    "C19": dict(shards=(16, 32), level="exploration",
                 floors={"quick": {"late_expected_ok": 800, "late_expected_err": 300, "late_sender_leaf_vacated_or_rekeyed": 40,
                                   "storage_contents_checked": 800, "late_refused_with:EpochNotFound": 150,
                                   "late_refused_with:MemberNotFound": 40, "write_pattern:0": 100, "write_pattern:1": 50, "write_pattern:3": 50}},
